@@ -263,8 +263,10 @@ def project_one(sid, meta, floors, evs, lines):
             reqip[ev["r"]] = m["ip"]
             lines.append(dict(ev="Invoke", r=ev["r"], kind=ev["kind"], wf=bool(m["wf"]),
                               ents=[dict(k=x["k"], s=x["s"], t=x["t"], slot=x["slot"], root=x["root"], dom=x["dom"]) for x in ev["ents"]]))
+            for i in m.get("faults", []):
+                lines.append(dict(ev="Fault", r=ev["r"], i=i))
         elif e == "Release":
-            lines.append(dict(ev="Release", r=ev["r"], k=ev["k"], kind=ev["kind"], s=ev["s"], t=ev["t"], slot=ev["slot"],
+            lines.append(dict(ev="Release", r=ev["r"], i=ev["i"], k=ev["k"], kind=ev["kind"], s=ev["s"], t=ev["t"], slot=ev["slot"],
                               root=ev["root"], dom=ev["dom"], ip=reqip.get(ev["r"], "none")))
         elif e == "Respond":
             lines.append(dict(ev="Respond", r=ev["r"], res=ev["res"], sig=ev["sig"]))
